@@ -144,7 +144,12 @@ def run_history(chi_sym, mk, seq, opmap):
         names_before = dict(zip(m._output_names, m.outputs()))
         try:
             r = opmap[name](m)
-        except EXPECTED_ERRORS as ex:
+        except (Unsupported, sym.TooManyPaths):
+            raise
+        except Exception as ex:
+            if not isinstance(ex, EXPECTED_ERRORS):
+                # neither a documented rejection nor an engine limit: the public call fails on a validly configured model
+                return ('copy.equal' if name == 'copy' else 'model.surgery', '%s raises %s: %s on a validly configured model' % (name, type(ex).__name__, str(ex)[:200]), done + [name])
             if name in ('copy', 'sens_on', 'sens_off', 'simulate'):
                 # these requests are valid in every state of a model: an error is not a documented rejection
                 return ('copy.equal' if name == 'copy' else 'flags.consistent', '%s raises %r on a validly configured model' % (name, ex), done + [name])
@@ -174,11 +179,33 @@ def run_history(chi_sym, mk, seq, opmap):
             for on, of in opmap.items():
                 if on in ('copy', 'noop', 'simulate'):
                     continue
-                c2 = m.copy()
+                try:
+                    c2 = m.copy()
+                except (Unsupported, sym.TooManyPaths):
+                    raise
+                except Exception as ex:
+                    return ('copy.equal', 'copy() raises %s: %s on a validly configured model' % (type(ex).__name__, str(ex)[:200]), done)
                 try:
                     of(c2)
                 except EXPECTED_ERRORS:
                     pass
+                except (Unsupported, sym.TooManyPaths):
+                    raise
+                except Exception as ex:
+                    # the same call on a model that went through the same history without being copied
+                    twin = mk()
+                    try:
+                        for nm_ in done:
+                            if not nm_.endswith('!') and nm_ != 'copy':
+                                opmap[nm_](twin)
+                        of(twin)
+                        same = False
+                    except EXPECTED_ERRORS:
+                        same = False
+                    except Exception:
+                        same = True
+                    if not same:
+                        return ('copy.equal', '%s on a copy raises %s: %s; on a model with the same history that was not copied it does not' % (on, type(ex).__name__, str(ex)[:160]), done + ['copy', on])
                 if observable(m) != orig_obs:
                     return ('copy.separate', 'applying %s to a copy changed the original' % on, done)
             m = c            # continue the history on the copy
